@@ -167,3 +167,19 @@ def confuse_rows(term, rows, seed):
                 v = n.replace("%", "xy").replace("_", "q").replace("\\", "")
             row[r.choice(["s1", "s2"])] = v
     return rows
+
+
+def lookalike_twins(t):
+    """Filters that differ from t only in the letter case of string-literal contents, or in runs of
+    blanks inside them: a translation cached on a normalised key would be returned for the wrong one."""
+    def mapstr(x, f):
+        if x[0] == "lit" and x[1] == "str":
+            return ("lit", "str", f(x[2]))
+        cs = children(x)
+        return rebuild(x, [mapstr(c, f) for c in cs]) if cs else x
+    out = []
+    for f in (lambda v: v.swapcase(), lambda v: v.replace(" ", "  "), lambda v: v.lower()):
+        t2 = mapstr(t, f)
+        if t2 != t and t2 not in out:
+            out.append(t2)
+    return out
